@@ -294,6 +294,13 @@ def calls_for(rng, sr, sym, x, fermionic, other=None, thorough=False):
                 z /= 2
             return z
         return f
+    # the augmented operators ARE the in-place forms of the binary ones: same value as the out-of-place expression
+    A(Call('add|iadd', lambda a, ip: iop('+')(a, True) if ip else a[0] + a[1], [x, y], flag=True))
+    A(Call('sub|isub', lambda a, ip: iop('-')(a, True) if ip else a[0] - a[1], [x, ys], flag=True))
+    A(Call('mul|imul', lambda a, ip: iop('*')(a, True) if ip else a[0] * a[1], [x, y], flag=True))
+    A(Call('mul|imul (other sectors)', lambda a, ip: iop('*')(a, True) if ip else a[0] * a[1], [x, ys], flag=True))
+    A(Call('scale|iscale', lambda a, ip: iop('*s')(a, True) if ip else a[0] * 2, [x], flag=True))
+    A(Call('div|idiv', lambda a, ip: iop('/s')(a, True) if ip else a[0] / 2, [x], flag=True))
     A(Call('iadd', iop('+'), [x, y], receivers=(0,)))
     A(Call('isub', iop('-'), [x, y], receivers=(0,)))
     A(Call('isub_same', iop('-'), [x, ys], receivers=(0,)))
